@@ -723,6 +723,15 @@ struct Impl {
 
 def cpp_runtime_ir(ctx: core.Ctx):
     """-> {valuation 'cal/ctl': {'processUpdate': [(params, body)], 'tick': [(params, body)]}} from clang's AST"""
+    prev = cppast.INT_CASTS_VISIBLE
+    cppast.INT_CASTS_VISIBLE = True
+    try:
+        return _cpp_runtime_ir(ctx)
+    finally:
+        cppast.INT_CASTS_VISIBLE = prev
+
+
+def _cpp_runtime_ir(ctx: core.Ctx):
     hdr = "cpp/runtime/include/formak/runtime/ManagedFilter.h"
     ctx.read(hdr)
     impls, drive = [], []
@@ -1041,7 +1050,10 @@ def py_runtime_func(ctx: core.Ctx, cls, name, keep=("_process_model", "tick")):
     inl = list(getattr(out, "_inlined", []))
     for h in inl:
         ctx.functions.append(f"runtime.ManagedFilter.{h} (inlined into {name})")
-    # values packaged in a module-level namedtuple are unpacked into their fields, module constants folded in
+    # values packaged in a module-level namedtuple / plain dataclass are unpacked into their fields (RECORD: their read-only properties and class
+    # constants first), module constants folded in
+    out = normast.subst_record_members(out, normast.record_members(mod))
+    out._inlined = inl
     nts = normast.module_namedtuples(mod)
     consts = normast.module_constants(mod)
     if nts or consts:
